@@ -257,6 +257,8 @@ impl CL03CommitmentPublicKey {
             let mut g_i = Integer::from(h.pow_mod_ref(&f, &N).unwrap());
 
             loop {
+                #[cfg(zkryptium_verif)]
+                crate::verif_hooks::tick("retry:commitment_key_g_i");
                 if ((g_i > Integer::from(1))
                     && (Integer::from(g_i.gcd_ref(&N)) == Integer::from(1)))
                     == false
